@@ -155,6 +155,55 @@ func genGenerated(r *sim.Rand) c05Case {
 	return c
 }
 
+// parallelCase: a cycle whose entry node is reached from an outer processor through parallel connections
+// that differ only in their condition (e.g. hit -> A and miss -> A). 192 graphs: direction x entry
+// conditions x cycle shape x cycle condition x exit.
+const nParallel = 192
+
+func parallelCase(i int) c05Case {
+	dir := i % 2
+	i /= 2
+	entry := [][]string{{""}, {"a"}, {"", "a"}, {"", "a", "b"}}[i%4]
+	i /= 4
+	shape := i % 4
+	i /= 4
+	cc := []string{"", "a"}[i%2]
+	i /= 2
+	exit := i % 3
+	var es []sim.GEdge
+	es = append(es, sim.GEdge{From: "", To: "X"})
+	for _, c := range entry {
+		es = append(es, sim.GEdge{From: "X", Cond: c, To: "A"})
+	}
+	switch shape {
+	case 0:
+		es = append(es, sim.GEdge{From: "A", Cond: cc, To: "B"}, sim.GEdge{From: "B", Cond: cc, To: "A"})
+	case 1:
+		es = append(es, sim.GEdge{From: "A", Cond: cc, To: "A"})
+	case 2:
+		es = append(es, sim.GEdge{From: "A", Cond: cc, To: "B"}, sim.GEdge{From: "B", Cond: cc, To: "B"})
+	default:
+		es = append(es, sim.GEdge{From: "A", Cond: cc, To: "B"}, sim.GEdge{From: "B", Cond: cc, To: "A"}, sim.GEdge{From: "A", Cond: cc, To: "A"})
+	}
+	switch exit {
+	case 1:
+		es = append(es, sim.GEdge{From: "A", Cond: "zzz", To: ""})
+	case 2:
+		es = append(es, sim.GEdge{From: "B", Cond: "zzz", To: ""})
+	}
+	fl := sim.GFlow{Name: "par", URL: "a.com/*", Nodes: []sim.GNode{{Key: "X", Kind: "VerifProbe"}, {Key: "A", Kind: "VerifProbe"}}}
+	if shape != 1 {
+		fl.Nodes = append(fl.Nodes, sim.GNode{Key: "B", Kind: "VerifProbe"})
+	}
+	if dir == 0 {
+		fl.Req = es
+	} else {
+		fl.Req = []sim.GEdge{{From: "", To: "X"}, {From: "X", To: ""}}
+		fl.Resp = es
+	}
+	return c05Case{Kind: "parallel-entry-cycle", Flows: []sim.GFlow{fl}}
+}
+
 func genRefs(r *sim.Rand) c05Case {
 	c := c05Case{Kind: "refs"}
 	names := []string{"ra", "rb", "rc"}
@@ -389,7 +438,7 @@ func main() {
 	nGen := args.Pick(500, 6000)
 	nRefs := args.Pick(36, 600)
 	nQuota := args.Pick(300, 4000)
-	total := exTotal + nGen + nRefs + nQuota
+	total := exTotal + nGen + nRefs + nQuota + nParallel
 	lo, hi := args.Share(total)
 	v.Exhaustive = false
 	v.Extra["exhaustive_core_complete"] = args.Thorough()
@@ -407,8 +456,10 @@ func main() {
 			c = genGenerated(r)
 		case i < exTotal+nGen+nRefs:
 			c = genRefs(r)
-		default:
+		case i < exTotal+nGen+nRefs+nQuota:
 			c = genQuota(r)
+		default:
+			c = parallelCase(i - (exTotal + nGen + nRefs + nQuota))
 		}
 		runCase(i, args, r, c, v, root)
 	}
